@@ -402,3 +402,17 @@ Definition outer_accept (e : env) (op : outer) (signers : list Z) : bool :=
            | Some rs => validate_signers_with_parties e owners owners rs signers
            end
   end.
+
+(** ** getAuthzMessageTypeURLs, on message kinds:
+    1 MsgWriteScope, 2 MsgDeleteScope, 3 MsgAddScopeDataAccess, 4 MsgDeleteScopeDataAccess,
+    5 MsgAddScopeOwner, 6 MsgDeleteScopeOwner, 7 MsgWriteSession, 8 MsgWriteRecord,
+    9 MsgDeleteRecord.  A grant for the message's own kind always counts; 3-6 also accept a
+    MsgWriteScope grant and 8 a MsgWriteSession grant. *)
+Definition authz_urls (m : Z) : list Z :=
+  m :: (if existsb (Z.eqb m) [3; 4; 5; 6] then [1] else if Z.eqb m 8 then [7] else []).
+
+(** The environment a message of kind [m] sees: [raw] lists (granter, grantee, kind granted). *)
+Definition mk_env (m : Z) (wasm : list Z) (raw : list (Z * Z * Z)) : env :=
+  {| e_wasm := wasm;
+     e_grants := map (fun g => (fst (fst g), snd (fst g)))
+                     (filter (fun g => mem (snd g) (authz_urls m)) raw) |}.
